@@ -139,8 +139,17 @@ _LIB = None
 def _fff():
     global _LIB
     if _LIB is None:
+        import time
         from harness import cshim
-        lib = cshim.load("fff")
+        lib = None
+        for attempt in range(6):     # several workers may compile the same cache entry at once
+            try:
+                lib = cshim.load("fff")
+                break
+            except (OSError, RuntimeError):
+                if attempt == 5:
+                    raise
+                time.sleep(0.5 + attempt)
         lib.fff_glm_KF_new.restype = C.POINTER(_KF)
         lib.fff_glm_KF_new.argtypes = [C.c_size_t]
         lib.fff_glm_KF_fit.argtypes = [C.POINTER(_KF), C.POINTER(_Vec), C.POINTER(_Mat)]
@@ -183,6 +192,13 @@ def c_kalman(X, Y):
 def _cond(A):
     s = np.linalg.svd(np.asarray(A, float), compute_uv=False)
     return float(s.max() / s.min()) if s.min() > 0 else float("inf")
+
+
+def _bfloor(wX, ys):
+    """natural size of a coefficient: data scale over the largest singular value of the design
+    (keeps relative comparisons meaningful when the exact coefficient is 0)"""
+    smax = float(np.linalg.svd(np.asarray(wX, float), compute_uv=False).max())
+    return ys / smax if smax > 0 else ys
 
 
 def _rtol(cond):
@@ -274,21 +290,37 @@ class C05(PropertyCheck):
         "sd/t are compared through variances",
         "IEEE rounding: implementation floats are compared with the exact rational answer to "
         "max(1e-9, 1e-14*cond^2) relative to the size of the block; the C Kalman filter (prior variance 1e7, "
-        "hence ~7 digits of cancellation) to 1e-5*max(1,cond^2/1e4)",
-        "BLAS dsymv reads one triangle of the Kalman covariance; the model uses the full matrix, which is "
-        "symmetric at every step (theorem kalman_cov_symmetric)",
+        "hence ~7 digits of cancellation) to 1e-5*max(1,cond^2/1e4) + 1e-8*smax(X)^2",
+        "Kalman engine: the model is the recursion of fff_glm_KF_iterate in exact arithmetic; theorem "
+        "kalman_is_ridge shows it ends at the batch solution of (X'X + 1e-7 I) b = X'y, so the oracle allows "
+        "|b_kalman - b_ols| <= 4e-7*|(X'X)^-1|*|b| and a ridge term 4e-7*|b|^2/(n-p) in s2 on top of rounding "
+        "(on nearly collinear designs, smallest singular value^2 ~ 1e-4, this is a visible 0.1% in b and several "
+        "% in s2 - inherent to the diffuse prior 1e7, not flagged); BLAS dsymv reads one triangle of the "
+        "covariance, the model the full matrix, symmetric by kalman_cov_symmetric",
         "the refined Kalman filter (labs model='ar1', fff_glm_RKF_*) is an approximate pseudo-likelihood "
         "scheme with no exact counterpart: only its refusal guards, shapes, degrees of freedom and "
         "voxelwise behaviour are checked by the oracle (modelled-not-verified)",
         "AR(1) bin labels of GeneralLinearModel: voxels whose exact ar1*steps lies within 1e-7 of an integer "
         "are not compared (float truncation may legally pick either bin)",
     ]
+    level_text = ("proof: 25 Lean theorems over all inputs of an exact rational model of OLS/WLS/AR(p)/GLS fits, "
+                  "contrasts, labs ols, the fMRI GLM (ols, per-bin AR(1) refit) and the C Kalman recursion; "
+                  "tied to the code by differential correspondence + property oracle")
+    level_note = ("proved: normal equations / orthogonality, RSS minimality, SSE = min RSS, cov = Gram inverse, "
+                  "reparametrisation invariance (fitted values, residuals, dispersion, dof, contrast effect and "
+                  "covariance), voxel order/grouping, scale equivariance, the four reductions, agreement of the three "
+                  "Python-level implementations, Kalman recursion = regularised batch least squares (ridge 1e-7). "
+                  "Partial: the scatter of per-bin results back to voxels (get_beta) is proved only up to "
+                  "group membership (glm_ar1_group_fit, group_label); pinv = (X'X)^-1 X' and matrix_rank are "
+                  "hypotheses; the refined Kalman filter (labs model='ar1') is oracle-only")
     finding_keys = {KEY_KALMAN_S2: "labs.glm kalman engine returns s2 = ssd/n while the ols engine "
                                    "returns ssd/(n-p)"}
 
     # ------------------------------------------------------------------
     def generate(self, rng, tier):
-        nm, ne, ng, nb = (170, 90, 90, 40) if tier == "quick" else (1800, 900, 900, 200)
+        from harness import cshim
+        cshim.build("fff")        # compile once in the parent, before the workers race for it
+        nm, ne, ng, nb = (1400, 700, 700, 120) if tier == "quick" else (36000, 18000, 18000, 1000)
         cases = []
         for _ in range(nm):
             n, p, v = _sizes(rng, tier)
@@ -354,7 +386,10 @@ class C05(PropertyCheck):
                 c[rng.randrange(p)] = 1.0
             cases.append({"kind": "engines", "X": _design(rng, n, p, dk),
                           "Y": _data(rng, n, v, rng.choice(["int", "dyadic", "smooth"])), "c": c,
-                          "nd3": rng.random() < 0.4})
+                          "nd3": rng.random() < 0.4,
+                          # the residual-variance comparison of the Kalman engine runs on its own cases
+                          # (no model lines), so that the known finding there never hides a disagreement
+                          "s2check": rng.random() < 0.2})
         for _ in range(ng):
             n, p, v = _sizes(rng, tier)
             n = max(n, 4); p = min(p, n - 2, 5)
@@ -431,7 +466,8 @@ class C05(PropertyCheck):
         ys = max(1.0, float(np.abs(Y).max())) * ws
         line = (f"fit {pmat(X)} {pmat(Y)} {_wline(w, m)} {frs(c)} {pmat(Cm)}")
         impl = ("fit", {k: (a.tolist() if isinstance(a, np.ndarray) else a) for k, a in obs.items()},
-                {"rtol": rt, "ys": ys, "n": n, "p": p, "v": v, "cabs": float(np.abs(c).sum())})
+                {"rtol": rt, "ys": ys, "n": n, "p": p, "v": v, "cabs": float(np.abs(c).sum()),
+                 "bfloor": _bfloor(wX, ys)})
         tags.append("cond<1e2" if cond < 1e2 else "cond<1e4" if cond < 1e4 else "cond>=1e4")
         fail = self._models_oracle(reg, case, X, Y, w, m, res, obs, rt, ys)
         return {"lines": [line], "impl": [impl], "oracle": fail, "tags": tags, "mutated": mut,
@@ -444,7 +480,7 @@ class C05(PropertyCheck):
         wX = np.asarray(m.wdesign, float); wY = np.asarray(m.whiten(Y), float)
         beta = obs["beta"]; wres = obs["wresid"]
         xs = max(1.0, float(np.abs(wX).max()))
-        bs = max(1e-12, float(np.abs(beta).max()))
+        bs = max(_bfloor(wX, ys), float(np.abs(beta).max()))
         rt_o = 20 * rt          # float-vs-float comparisons: both sides round
         # (1) whitened residuals orthogonal to the whitened design
         g = wX.T @ wres
@@ -552,11 +588,15 @@ class C05(PropertyCheck):
         n, p = X.shape; v = Y.shape[1]
         c = np.array(case["c"], float)
         cond = _cond(X); rt = _rtol(cond); rt_o = 20 * rt
-        rk = 1e-5 * max(1.0, cond * cond / 1e4)
+        # float accuracy of the C recursion: cancellation against the prior variance 1e7 loses
+        # ~ eps * 1e7 * |x|^2 relative accuracy (observed 1e-4 for regressors of size ~150)
+        smax = float(np.linalg.svd(X, compute_uv=False).max())
+        rk = 1e-5 * max(1.0, cond * cond / 1e4) + 1e-8 * smax * smax
         ys = max(1.0, float(np.abs(Y).max()))
         snap = Snapshot(X=X, Y=Y)
         tags = ["engines", "n-p=1" if n - p == 1 else "n-p>1",
                 "cond<1e2" if cond < 1e2 else "cond<1e4" if cond < 1e4 else "cond>=1e4"]
+        _fff()                    # a build problem is a harness error, not a verdict
         try:
             r = OLSModel(X).fit(Y)
             g = GeneralLinearModel(X); g.fit(Y)
@@ -574,9 +614,10 @@ class C05(PropertyCheck):
                               f"(n={n}, p={p}, v={v})"}
         mut = snap.changed()
         beta = np.asarray(r.theta, float); s2 = np.atleast_1d(np.asarray(r.dispersion, float))
-        bs = max(1e-12, float(np.abs(beta).max()))
+        bs = max(_bfloor(X, ys), float(np.abs(beta).max()))
         covs = float(np.abs(r.cov).max())
-        meta = {"rtol": rt, "rk": rk, "ys": ys, "n": n, "p": p, "v": v, "cabs": float(np.abs(c).sum())}
+        meta = {"rtol": rt, "rk": rk, "ys": ys, "n": n, "p": p, "v": v, "cabs": float(np.abs(c).sum()),
+                "bfloor": _bfloor(X, ys)}
         lines = [f"labs {pmat(X)} {pmat(Y)} {frs(c)}", f"kalman {pmat(X)} {pmat(Y)}",
                  f"kalman {pmat(X)} {pmat(Y)}"]
         impl = [("labs", {"beta": np.asarray(L.beta).tolist(), "nvbeta": np.asarray(L.nvbeta).tolist(),
@@ -645,11 +686,16 @@ class C05(PropertyCheck):
             if not _near(np.asarray(A2.beta)[:, ::-1], A1.beta, 1e-9, bs):
                 fail = "labs glm model='ar1': reversing the voxel order changes the per-voxel estimates"
         # s2 of the Kalman engine (last: this is the known finding)
-        if fail is None:
+        if case.get("s2check"):
+            lines, impl = [], []
+            tags.append("kalman-s2-checked")
+        if fail is None and case.get("s2check"):
             ks = np.atleast_1d(np.asarray(K.s2, float))
             if not _near(ks, s2, 10 * rk, ys * ys):
                 ratio = float(np.max(ks) / np.max(s2)) if np.max(s2) > 0 else float("nan")
-                if _near(ks * n / (n - p), s2, 10 * rk, ys * ys):
+                # ssd of the filter = min RSS + ridge term <= lambda*|b_ols|^2 (diffuse prior 1e7)
+                ridge = 4 * LAMBDA * (beta ** 2).sum(0) / (n - p)
+                if np.all(np.abs(ks * n / (n - p) - s2) <= 10 * rk * np.maximum(ys * ys, s2) + ridge):
                     fail = (f"kalman-s2: labs glm kalman engine returns s2 = ssd/n: {ks.tolist()} while the ols "
                             f"engine returns ssd/(n-p): {s2.tolist()} (ratio {ratio!r} = (n-p)/n = {(n - p) / n!r}; "
                             f"n={n}, p={p})")
@@ -696,10 +742,10 @@ class C05(PropertyCheck):
         bins = [int(round(x * steps)) for x in lab]
         cond = _cond(X) * (1 + float(np.abs(lab).max())) / max(1e-3, 1 - float(np.abs(lab).max()))
         rt = _rtol(cond); rt_o = 20 * rt
-        bs = max(1e-12, float(np.abs(B).max()))
+        bs = max(_bfloor(X, ys), float(np.abs(B).max()))
         line = f"glmar1 {steps} {pmat(X)} {pmat(Y)}"
         impl = ("glmar1", {"bins": bins, "beta": B.tolist(), "mse": M.tolist()},
-                {"rtol": rt, "ys": 2 * ys, "n": n, "p": p, "v": v})
+                {"rtol": rt, "ys": 2 * ys, "n": n, "p": p, "v": v, "bfloor": _bfloor(X, ys)})
         fail = None
         if len(set(bins)) > 1:
             tags.append("multi-bin")
@@ -796,7 +842,7 @@ class C05(PropertyCheck):
         if kind == "fit":
             if len(secs) != 9:
                 return f"model returned {len(secs)} sections"
-            beta = sec(0); bs = max(1e-12, float(np.abs(beta).max()))
+            beta = sec(0); bs = max(meta.get("bfloor", 1e-12), float(np.abs(beta).max()))
             cov = sec(4); covs = max(1e-300, float(np.abs(cov).max()))
             disp = sec(2)
             tvs = covs * meta["cabs"] ** 2 * ys * ys
@@ -827,7 +873,7 @@ class C05(PropertyCheck):
         if kind == "labs":
             if len(secs) != 6:
                 return f"model returned {len(secs)} sections"
-            beta = sec(0); bs = max(1e-12, float(np.abs(beta).max()))
+            beta = sec(0); bs = max(meta.get("bfloor", 1e-12), float(np.abs(beta).max()))
             nv = sec(1); covs = max(1e-300, float(np.abs(nv).max()))
             for d in (diff("labs beta", obs["beta"], beta, rt, bs), diff("labs nvbeta", obs["nvbeta"], nv, rt, covs),
                       diff("labs s2", obs["s2"], sec(2), rt, ys * ys),
@@ -841,7 +887,7 @@ class C05(PropertyCheck):
             if len(secs) != 4:
                 return f"model returned {len(secs)} sections"
             rk = meta["rk"]
-            beta = sec(0); bs = max(1e-12, float(np.abs(beta).max()))
+            beta = sec(0); bs = max(meta.get("bfloor", 1e-12), float(np.abs(beta).max()))
             vb = sec(3); covs = max(1e-300, float(np.abs(vb).max()))
             for d in (diff("kalman b", obs["beta"], beta, rk, bs), diff("kalman s2", obs["s2"], sec(1), rk, ys * ys),
                       diff("kalman dof", [obs["dof"]], sec(2), 0, 0), diff("kalman Vb", obs["Vb"], vb, rk, covs)):
@@ -855,7 +901,7 @@ class C05(PropertyCheck):
             ex = sec(1)
             v = meta["v"]
             beta = sec(2).reshape(p, v); mse = sec(3)
-            bs = max(1e-12, float(np.abs(beta).max()))
+            bs = max(meta.get("bfloor", 1e-12), float(np.abs(beta).max()))
             B = np.asarray(obs["beta"], float); M = np.asarray(obs["mse"], float)
             for j in range(v):
                 if mb[j] != obs["bins"][j]:
